@@ -170,12 +170,16 @@ Section Main.
     destruct (resample_at_stored_time_weak nan times (map g pts) i Hl main_times_weakly_increasing Hi')
       as (j & A & B & C & D & E).
     assert (Hj : (j < length pts)%nat) by (unfold times in B; rewrite map_length in B; auto).
-    exists j. unfold times in *. rewrite !nth_map_lt in * by auto.
-    split; auto. split; auto. split; auto. split.
-    - destruct D as [D|D]; [left; rewrite map_length in D; auto|].
+    exists j. split; auto. split; auto.
+    assert (Tj : nth j (map (@p_time RNum) pts) 0 = p_time (nth j pts pt0)) by (apply nth_map_lt; auto).
+    assert (Ti : nth i (map (@p_time RNum) pts) 0 = p_time (nth i pts pt0)) by (apply nth_map_lt; auto).
+    assert (Gj : nth j (map g pts) 0 = g (nth j pts pt0)) by (apply nth_map_lt; auto).
+    split; [rewrite <- Tj, <- Ti; exact C|]. split.
+    - destruct D as [D|D]; [left; unfold times in D; rewrite map_length in D; auto|].
       destruct (le_lt_dec (length pts) (S j)) as [Hn|Hn]; [left; lia|right].
-      rewrite nth_map_lt in D by auto. exact D.
-    - rewrite nth_map_lt in E by auto. exact E.
+      assert (Ts : nth (S j) (map (@p_time RNum) pts) 0 = p_time (nth (S j) pts pt0)) by (apply nth_map_lt; auto).
+      rewrite <- Ts, <- Ti. exact D.
+    - rewrite <- Gj, <- Ti. exact E.
   Qed.
 
   (* strictly between two neighbouring stored times: the linear interpolation of the neighbouring values *)
@@ -189,7 +193,14 @@ Section Main.
     assert (Hl : length times = length (map g pts)) by (unfold times; rewrite !map_length; auto).
     assert (Hi' : (S i < length times)%nat) by (unfold times; rewrite map_length; auto).
     pose proof (resample_between_weak nan times (map g pts) i x Hl main_times_weakly_increasing Hi') as H.
-    unfold times in H. rewrite !nth_map_lt in H by lia. apply H. exact Hx.
+    assert (Hi0 : (i < length pts)%nat) by lia.
+    assert (Ti : nth i (map (@p_time RNum) pts) 0 = p_time (nth i pts pt0)) by (apply nth_map_lt; auto).
+    assert (Ts : nth (S i) (map (@p_time RNum) pts) 0 = p_time (nth (S i) pts pt0)) by (apply nth_map_lt; auto).
+    assert (Gi : nth i (map g pts) 0 = g (nth i pts pt0)) by (apply nth_map_lt; auto).
+    assert (Gs : nth (S i) (map g pts) 0 = g (nth (S i) pts pt0)) by (apply nth_map_lt; auto).
+    assert (Hx' : nth i (map (@p_time RNum) pts) 0 < x < nth (S i) (map (@p_time RNum) pts) 0)
+      by (rewrite Ti, Ts; exact Hx).
+    rewrite <- Ti, <- Ts, <- Gi, <- Gs. apply H. exact Hx'.
   Qed.
 
   (* with mass iteration the leftover trip fuel, relative to the fuel load, is within the tolerance *)
